@@ -306,7 +306,11 @@ def fs_shape_corpus(rng, tier):
     for r in rows:
         for o in (["-o", "ir"], ["-o", "stats"], ["-f", "0"], ["-C", "shape-cache.json"], ["--strict"]):
             if not any(x in r["opts"] for x in o[:1]):
-                more.append(dict(r, row=r["row"] + ":" + "".join(o), opts=r["opts"] + o))
+                v = dict(r, row=r["row"] + ":" + "".join(o), opts=r["opts"] + o)
+                # with -f 0 a followed module is never read, so a pin about an import written THERE cannot apply
+                if o == ["-f", "0"] and ":in-followed" in r["row"]:
+                    v.pop("expect_fatal", None)
+                more.append(v)
     return rows + more
 
 
